@@ -106,8 +106,8 @@ class Ctx:
         if not cond:
             raise SoftBroken(msg)
 
-    def section(self, rule, node=None):
-        return _Section(self, rule, node)
+    def section(self, rule, node=None, also=()):
+        return _Section(self, rule, node, also)
 
 
 class SoftBroken(Exception):
@@ -115,8 +115,8 @@ class SoftBroken(Exception):
 
 
 class _Section:
-    def __init__(self, ctx, rule, node):
-        self.ctx, self.rule, self.node = ctx, rule, node
+    def __init__(self, ctx, rule, node, also=()):
+        self.ctx, self.rule, self.node, self.also = ctx, rule, node, tuple(also)
 
     def __enter__(self):
         self.ctx.in_section = getattr(self.ctx, 'in_section', 0) + 1
@@ -131,9 +131,10 @@ class _Section:
             return False
         self.ctx.soft_skipped = True
         self.ctx.undecided(self.rule, 'structure', self.node or self.rule, 'the anchored code is not written in the shape this rule reads (%s): the remaining obligations of the rule are not decided' % ev)
-        d, m = self.ctx.rules.get(self.rule, ('', 0))
-        have = sum(1 for o in self.ctx.obs if o.rule == self.rule)
-        self.ctx.rules[self.rule] = (d, min(m, have))
+        for r_ in (self.rule,) + self.also:
+            d, m = self.ctx.rules.get(r_, ('', 0))
+            have = sum(1 for o in self.ctx.obs if o.rule == r_)
+            self.ctx.rules[r_] = (d, min(m, have))
         return True
 
 
